@@ -20,6 +20,48 @@ const KEYWORD_FIELDS: [&str; 46] = [
 const ODD_FIELDS: [&str; 14] = ["value", "new", "clone", "eq", "min", "max", "some", "none", "ok", "err", "vec", "string", "u8", "len"];
 const TYPE_NAMES: [&str; 12] = ["Alpha", "Beta-Gamma", "My-Type", "X1", "Packet", "Inner", "Station-Id", "Msg", "T", "Result-Code", "Entry", "Node"];
 
+/// Systematic part: every identifier of the pools in every naming position (component,
+/// component with OPTIONAL / DEFAULT / in front of the extension marker, alternative, item),
+/// ten identifiers per module, so that no keyword depends on the random draw.
+pub fn identifier_table(exclude_self_variant: bool) -> Vec<Module> {
+    let all: Vec<&str> = KEYWORD_FIELDS.iter().chain(ODD_FIELDS.iter()).copied().collect();
+    let c = |name: &str, ty: Type, presence: Presence| Comp { name: name.to_string(), tag: None, ty, presence };
+    let mut out = Vec::new();
+    for (j, chunk) in all.chunks(10).enumerate() {
+        let plain = Type::Sequence(Fields { comps: chunk.iter().map(|n| c(n, Type::Boolean, Presence::Mandatory)).collect(), root: None });
+        let mixed = Type::Set(Fields {
+            comps: chunk
+                .iter()
+                .enumerate()
+                .map(|(i, n)| match i % 3 {
+                    0 => c(n, Type::int(0, 255), Presence::Optional),
+                    1 => c(n, Type::int(0, 255), Presence::Default(DefaultVal { lit: Lit::Int(7), via: None })),
+                    _ => c(n, Type::Str { cs: Charset::Utf8, size: None }, Presence::Mandatory),
+                })
+                .collect(),
+            root: None,
+        });
+        // every identifier once directly in front of the extension marker and once behind it
+        let marker: Vec<Def> = chunk
+            .iter()
+            .enumerate()
+            .map(|(i, n)| Def { name: format!("Ext{j}x{i}"), tag: None, ty: Type::Sequence(Fields { comps: vec![c(n, Type::Boolean, Presence::Mandatory), c(chunk[(i + 1) % chunk.len()], Type::Boolean, Presence::Optional)], root: Some(1) }) })
+            .collect();
+        let variants: Vec<&str> = chunk.iter().filter(|n| !(exclude_self_variant && **n == "self")).copied().collect();
+        let choice = Type::Choice { alts: variants.iter().map(|n| Alt { name: n.to_string(), tag: None, ty: Type::Boolean }).collect(), root: None };
+        let items = Type::Enumerated { items: variants.iter().map(|n| (n.to_string(), None)).collect(), root: None };
+        let mut defs = vec![
+            Def { name: format!("Plain{j}"), tag: None, ty: plain },
+            Def { name: format!("Mixed{j}"), tag: None, ty: mixed },
+            Def { name: format!("Alts{j}"), tag: None, ty: choice },
+            Def { name: format!("Items{j}"), tag: None, ty: items },
+        ];
+        defs.extend(marker);
+        out.push(Module::simple(&format!("Identifiers{j}"), defs));
+    }
+    out
+}
+
 /// Which open known findings a module falls under (excluded from the verdict, counted).
 pub fn known_shapes(m: &Module, text_defaults_by_ref: bool) -> Vec<&'static str> {
     let mut out = Vec::new();
@@ -348,7 +390,7 @@ fn error_class(errors: &[String]) -> String {
     out
 }
 
-const RULE: &str = "generated front-end-profile modules with an identifier pool (every Rust keyword and prelude-like names as component / alternative / item names, hyphen variants), every DEFAULT literal kind, value references; plus a sample of the fixed run-time zoo's modules. A module is a case only if the in-process front end (parse, resolve, to_rust, code generator) returns a file; rejections are counted, not judged. Oracle: cargo check (offline, path dependency on the current tree) of a crate with one file per module containing asn_to_rust!(..); rustc JSON diagnostics are mapped back to modules by file name, failing modules are removed and the batch re-checked until clean, so every module gets a verdict; any error diagnostic (incl. a proc-macro panic) for an accepted module is a violation. Non-trivial: the module has an identifier that mangling changes, or a DEFAULT / value reference; distinct = text hash.";
+const RULE: &str = "a systematic identifier table (every Rust keyword and prelude-like name as component - mandatory / OPTIONAL / DEFAULT / in front of and behind the extension marker -, as CHOICE alternative and as ENUMERATED item) + generated front-end-profile modules with an identifier pool (every Rust keyword and prelude-like names as component / alternative / item names, hyphen variants), every DEFAULT literal kind, value references; plus a sample of the fixed run-time zoo's modules. A module is a case only if the in-process front end (parse, resolve, to_rust, code generator) returns a file; rejections are counted, not judged. Oracle: cargo check (offline, path dependency on the current tree) of a crate with one file per module containing asn_to_rust!(..); rustc JSON diagnostics are mapped back to modules by file name, failing modules are removed and the batch re-checked until clean, so every module gets a verdict; any error diagnostic (incl. a proc-macro panic) for an accepted module is a violation. Non-trivial: the module has an identifier that mangling changes, or a DEFAULT / value reference; distinct = text hash.";
 
 pub fn run(ctx: Ctx) -> i32 {
     let report = Report::new(ctx.clone(), RULE);
@@ -398,6 +440,22 @@ pub fn run(ctx: Ctx) -> i32 {
     let mut rejected = 0u64;
     let mut excluded: BTreeMap<&'static str, u64> = BTreeMap::new();
     let open: Vec<&'static str> = ["named-number-outside-field-type", "self-as-variant", "min-to-negative-ub", "names-collide-after-mangling", "default-through-alias", "toplevel-list-of-inline-constructed", "negative-integer-constant", "string-value-assignment"].into_iter().filter(|k| report.known.is_open("C09", k)).collect();
+    // systematic identifier table first
+    for m in identifier_table(open.contains(&"self-as-variant")) {
+        let text = module_text(&m);
+        let shapes = known_shapes(&m, true);
+        if let Some(k) = shapes.iter().find(|k| open.contains(k)) {
+            *excluded.entry(k).or_insert(0) += 1;
+            continue;
+        }
+        if parse_and_resolve(&text).is_ok() && generated_source(&text).is_ok() {
+            report.class("identifier-table-module", 1);
+            cases.push((m, text, shapes));
+        } else {
+            rejected += 1;
+        }
+    }
+    let n_modules = n_modules + cases.len();
     let mut attempts = 0;
     while cases.len() < n_modules && attempts < n_modules * 20 {
         attempts += 1;
